@@ -1,1 +1,357 @@
-pub fn run(_run: &mut vf_core::Run) {}
+//! C12 — serialization round trip for every serializable type, through every reader.
+//!
+//! One sub-check per (reader class, type group): `mem/<group>` reads through `SliceReader` and
+//! `std::io::Cursor`, `adapter/<group>` through `ReadAdapter` over a chunked source. For a value x:
+//! `T::read_from(R(x.to_bytes())) == Ok(x)`, `!has_more_bytes()` afterwards, and — second pass with
+//! five foreign bytes appended — exactly those five bytes are left (the value consumes exactly what
+//! was written). `get_size_hint` is documented as an estimate and is not asserted.
+
+use std::fmt::Debug;
+use std::io::Cursor;
+use std::marker::PhantomData;
+
+use proptest::prelude::*;
+use serde::de::DeserializeOwned;
+use serde::{Deserialize, Serialize};
+use vf_core::panics::normalise;
+use vf_core::{CheckResult, Fail, Obs, Run, SubCheck, Tier};
+use winter_utils::{ByteReader, Deserializable, DeserializationError, ReadAdapter, Serializable, SliceReader};
+
+use crate::chunked::{chunk_class, chunk_strategy, Chunked};
+
+pub mod prim;
+pub mod structs;
+
+// READERS
+// ================================================================================================
+
+#[derive(Clone, Copy, PartialEq, Eq, Debug)]
+pub enum Rd {
+    Mem,
+    Adapter,
+}
+
+/// classes excluded from composite values while the corresponding finding is open
+#[derive(Clone, Copy, Default, Debug)]
+pub struct Excl {
+    pub width255: bool,
+    pub aux_norand: bool,
+    pub ood_evals_big: bool,
+}
+
+/// While a class is an open known finding only every 16th member of it (chosen by a fixed function
+/// of the case) is still executed - enough to keep reporting the finding - because every failing
+/// case is shrunk by the engine; the others are counted under a `skipped-known:` label.
+pub fn keep_known(h: u64) -> bool {
+    h % 16 == 0
+}
+
+pub struct Ctx<'a> {
+    pub rd: Rd,
+    pub chunks: &'a [u16],
+    pub excl: Excl,
+}
+
+pub fn err_key(e: &DeserializationError) -> String {
+    match e {
+        DeserializationError::InvalidValue(m) => format!("InvalidValue({})", normalise(m)),
+        DeserializationError::UnexpectedEOF => "UnexpectedEOF".into(),
+        DeserializationError::UnconsumedBytes => "UnconsumedBytes".into(),
+        DeserializationError::UnknownError(m) => format!("UnknownError({})", normalise(m)),
+    }
+}
+
+pub fn dbg<T: Debug + ?Sized>(x: &T) -> String {
+    let s = format!("{x:?}");
+    if s.len() > 300 {
+        let mut cut = 300;
+        while !s.is_char_boundary(cut) {
+            cut -= 1;
+        }
+        format!("{}…(+{} chars)", &s[..cut], s.len() - cut)
+    } else {
+        s
+    }
+}
+
+const TAIL: [u8; 5] = [0xA5, 0x00, 0x01, 0xFF, 0x80];
+
+/// reads one T, then reports has_more_bytes and drains what is left
+fn read_all<R: ByteReader, T: Deserializable>(r: &mut R, cap: usize) -> (Result<T, DeserializationError>, bool, Vec<u8>) {
+    let v = T::read_from(r);
+    let more = r.has_more_bytes();
+    let mut rest = vec![];
+    if v.is_ok() {
+        while let Ok(b) = r.read_u8() {
+            rest.push(b);
+            if rest.len() > cap {
+                break;
+            }
+        }
+    }
+    (v, more, rest)
+}
+
+/// Wrapper around `ReadAdapter` that forwards the six required `ByteReader` methods unchanged and
+/// repeats the trait's provided `read_many` with one addition: an element count that cannot stem
+/// from the input (more than 16 x input length + 200000) is recorded and refused instead of being
+/// handed to `Vec::with_capacity`, which would abort the whole harness process. Such a count can
+/// only come out of a reader that returned wrong bytes; it is reported as a violation.
+struct Guard<'a, 'b> {
+    inner: ReadAdapter<'a>,
+    limit: usize,
+    tripped: &'b std::cell::Cell<Option<usize>>,
+}
+
+impl ByteReader for Guard<'_, '_> {
+    fn read_u8(&mut self) -> Result<u8, DeserializationError> {
+        self.inner.read_u8()
+    }
+    fn peek_u8(&self) -> Result<u8, DeserializationError> {
+        self.inner.peek_u8()
+    }
+    fn read_slice(&mut self, len: usize) -> Result<&[u8], DeserializationError> {
+        self.inner.read_slice(len)
+    }
+    fn read_array<const N: usize>(&mut self) -> Result<[u8; N], DeserializationError> {
+        self.inner.read_array::<N>()
+    }
+    fn check_eor(&self, num_bytes: usize) -> Result<(), DeserializationError> {
+        self.inner.check_eor(num_bytes)
+    }
+    fn has_more_bytes(&self) -> bool {
+        self.inner.has_more_bytes()
+    }
+    fn read_many<D>(&mut self, num_elements: usize) -> Result<Vec<D>, DeserializationError>
+    where
+        D: Deserializable,
+    {
+        if num_elements > self.limit {
+            self.tripped.set(Some(num_elements));
+            return Err(DeserializationError::UnknownError("harness guard: implausible element count".into()));
+        }
+        let mut result = Vec::with_capacity(num_elements);
+        for _ in 0..num_elements {
+            result.push(D::read_from(self)?);
+        }
+        Ok(result)
+    }
+}
+
+impl Ctx<'_> {
+    /// round trip of a value through its own encoding
+    pub fn rt<T>(&self, what: &str, x: &T, obs: &mut Obs) -> CheckResult
+    where
+        T: Serializable + Deserializable + PartialEq + Debug,
+    {
+        let bytes = vf_core::catch(|| x.to_bytes()).map_err(|p| {
+            Fail::new(format!("{what}/encode/{}", p.key()), format!("to_bytes panicked for {}: {} at {}:{}", dbg(x), p.msg, p.file, p.line))
+        })?;
+        self.rt_bytes(what, bytes, x, obs)
+    }
+
+    /// `bytes` is the encoding of something that must decode (as T) to `x`
+    pub fn rt_bytes<T>(&self, what: &str, bytes: Vec<u8>, x: &T, obs: &mut Obs) -> CheckResult
+    where
+        T: Deserializable + PartialEq + Debug,
+    {
+        let readers: &[&str] = match self.rd {
+            Rd::Mem => &["slice", "cursor"],
+            Rd::Adapter => &["adapter"],
+        };
+        let mut extended = bytes.clone();
+        extended.extend_from_slice(&TAIL);
+        for reader in readers {
+            for (pass, (input, tail)) in [(&bytes, &[][..]), (&extended, &TAIL[..])].into_iter().enumerate() {
+                obs.comparisons += 1;
+                let tripped = std::cell::Cell::new(None);
+                let r = vf_core::catch(|| match *reader {
+                    "slice" => read_all::<_, T>(&mut SliceReader::new(input), 16),
+                    "cursor" => read_all::<_, T>(&mut Cursor::new(&input[..]), 16),
+                    _ => {
+                        let mut src = Chunked::new(input, self.chunks);
+                        let mut ad = Guard { inner: ReadAdapter::new(&mut src), limit: 16 * input.len() + 200_000, tripped: &tripped };
+                        read_all::<_, T>(&mut ad, 16)
+                    },
+                });
+                if let Some(n) = tripped.get() {
+                    return Err(Fail::new(
+                        format!("{what}/{reader}/implausible-count"),
+                        format!(
+                            "decoding {} ({reader}, {} bytes) asked for {n} elements (a count that is nowhere in the encoding; Vec::with_capacity({n}) would abort the process)",
+                            dbg(x),
+                            input.len()
+                        ),
+                    ));
+                }
+                let ctxs = format!("{reader}, {} bytes{}", bytes.len(), if pass == 1 { " + 5 foreign bytes" } else { "" });
+                let (v, more, rest) = r.map_err(|p| {
+                    Fail::new(format!("{what}/{reader}/{}", p.key()), format!("decoding panicked ({ctxs}) for {}: {} at {}:{}", dbg(x), p.msg, p.file, p.line))
+                })?;
+                match v {
+                    Err(e) => {
+                        return Err(Fail::new(
+                            format!("{what}/{reader}/err:{}", err_key(&e)),
+                            format!("value {} does not decode ({ctxs}): {e:?}; encoding starts {}", dbg(x), vf_core::hex(&bytes[..bytes.len().min(32)])),
+                        ))
+                    },
+                    Ok(y) => {
+                        if y != *x {
+                            return Err(Fail::new(format!("{what}/{reader}/value"), format!("decoded {} from the encoding of {} ({ctxs})", dbg(&y), dbg(x))));
+                        }
+                    },
+                }
+                if more != !tail.is_empty() || rest != tail {
+                    return Err(Fail::new(
+                        format!("{what}/{reader}/consumed"),
+                        format!(
+                            "after decoding {} ({ctxs}): has_more_bytes = {more}, remaining bytes {} (expected {})",
+                            dbg(x),
+                            vf_core::hex(&rest),
+                            vf_core::hex(tail)
+                        ),
+                    ));
+                }
+            }
+        }
+        Ok(())
+    }
+}
+
+// GENERIC SUB-CHECK
+// ================================================================================================
+
+pub trait Group: Sync + 'static {
+    type Spec: Serialize + DeserializeOwned + Debug + Clone + Send;
+    const NAME: &'static str;
+    /// cap on the case count while every failure of the reader class is an open known finding
+    /// (each failing case is shrunk, which is expensive for large values)
+    const REDUCED_MAX: u64 = 3000;
+    fn strategy(tier: Tier) -> BoxedStrategy<Self::Spec>;
+    fn cases(tier: Tier) -> u64;
+    fn rule() -> String;
+    fn required_labels() -> Vec<String> {
+        vec![]
+    }
+    fn check(spec: &Self::Spec, ctx: &Ctx, obs: &mut Obs) -> CheckResult;
+}
+
+#[derive(Serialize, Deserialize, Clone, Debug)]
+#[serde(bound = "S: Serialize + DeserializeOwned")]
+pub struct RtCase<S> {
+    pub spec: S,
+    /// chunk sizes of the source under ReadAdapter (ignored by the in-memory readers)
+    pub chunks: Vec<u16>,
+}
+
+pub struct Rt<G> {
+    pub rd: Rd,
+    pub excl: Excl,
+    /// the adapter class is an open known finding: run a reduced number of cases
+    pub reduced: bool,
+    _g: PhantomData<fn() -> G>,
+}
+
+impl<G> Rt<G> {
+    pub fn new(rd: Rd, excl: Excl, reduced: bool) -> Self {
+        Rt { rd, excl, reduced, _g: PhantomData }
+    }
+}
+
+impl<G: Group> SubCheck for Rt<G> {
+    type Case = RtCase<G::Spec>;
+    fn name(&self) -> String {
+        format!("{}/{}", if self.rd == Rd::Mem { "mem" } else { "adapter" }, G::NAME)
+    }
+    fn cases(&self, tier: Tier) -> u64 {
+        let n = G::cases(tier);
+        match self.rd {
+            Rd::Mem => n,
+            Rd::Adapter if self.reduced => (n / 100).clamp(64, G::REDUCED_MAX),
+            Rd::Adapter => n / 2,
+        }
+    }
+    fn watchdog_secs(&self) -> u64 {
+        30
+    }
+    fn rule(&self) -> String {
+        let r = match self.rd {
+            Rd::Mem => "readers: SliceReader and std::io::Cursor".to_string(),
+            Rd::Adapter => format!(
+                "reader: ReadAdapter over a source chunked {{1-byte, <16, random, around 256, around 512, one big}}{}",
+                if self.reduced { " (case count reduced to 1%: every failure of this reader class is an open known finding)" } else { "" }
+            ),
+        };
+        format!("{}; {r}; each value decoded twice: from its exact encoding (no bytes may be left) and with 5 foreign bytes appended (exactly those must be left)", G::rule())
+    }
+    fn required_labels(&self, _tier: Tier) -> Vec<String> {
+        if self.rd == Rd::Adapter && self.reduced {
+            vec![]
+        } else {
+            G::required_labels()
+        }
+    }
+    fn strategy(&self, tier: Tier) -> BoxedStrategy<Self::Case> {
+        match self.rd {
+            Rd::Mem => G::strategy(tier).prop_map(|spec| RtCase { spec, chunks: vec![] }).boxed(),
+            Rd::Adapter => (G::strategy(tier), chunk_strategy()).prop_map(|(spec, chunks)| RtCase { spec, chunks }).boxed(),
+        }
+    }
+    fn check(&self, c: &Self::Case, obs: &mut Obs) -> CheckResult {
+        if self.rd == Rd::Adapter {
+            obs.label(format!("chunking={}", chunk_class(&c.chunks)));
+        }
+        let ctx = Ctx { rd: self.rd, chunks: &c.chunks, excl: self.excl };
+        G::check(&c.spec, &ctx, obs)
+    }
+}
+
+// byte fills for large opaque payloads: a pure function of a generated seed
+#[derive(Serialize, Deserialize, Clone, Debug)]
+pub enum Fill {
+    Zero,
+    Ones,
+    Pat(u64),
+}
+
+pub fn fill(f: &Fill, n: usize) -> Vec<u8> {
+    match f {
+        Fill::Zero => vec![0; n],
+        Fill::Ones => vec![0xff; n],
+        Fill::Pat(seed) => {
+            let mut out = Vec::with_capacity(n + 8);
+            let mut i = 0u64;
+            while out.len() < n {
+                let mut h = seed.wrapping_add(i.wrapping_mul(0x9e3779b97f4a7c15));
+                h ^= h >> 30;
+                h = h.wrapping_mul(0xbf58476d1ce4e5b9);
+                h ^= h >> 27;
+                h = h.wrapping_mul(0x94d049bb133111eb);
+                h ^= h >> 31;
+                out.extend_from_slice(&h.to_le_bytes());
+                i += 1;
+            }
+            out.truncate(n);
+            out
+        },
+    }
+}
+
+pub fn fill_strategy() -> BoxedStrategy<Fill> {
+    prop_oneof![1 => Just(Fill::Zero), 1 => Just(Fill::Ones), 6 => any::<u64>().prop_map(Fill::Pat)].boxed()
+}
+
+pub fn run(run: &mut Run) {
+    run.assume("equality of decoded and original value is the type's own PartialEq (field elements compare by residue)");
+    let excl = Excl {
+        width255: run.is_known("mem/trace-info/TraceInfo/slice/err:InvalidValue(full trace width"),
+        aux_norand: run.is_known("mem/trace-info/TraceInfo/slice/err:InvalidValue(a non-empty trace segment"),
+        ood_evals_big: run.is_known("mem/ood/OodFrame(evals>65535B)/"),
+    };
+    let reduced = run.is_known("adapter/");
+    if reduced {
+        run.note("reduced_known", serde_json::json!("adapter/* sub-checks run 1% of their case count while the ReadAdapter finding is open"));
+    }
+    prim::run(run, excl, reduced);
+    structs::run(run, excl, reduced);
+}
